@@ -103,6 +103,11 @@ class Sub:
         """yield structurally smaller candidate cases (optional)"""
         return ()
 
+    def valid(self, case):
+        """is this (shrunk) case still inside the input domain?  (the generic float simplifier
+        does not know about unit quaternions, SPD matrices ...)"""
+        return True
+
     def size(self, case):
         return len(json.dumps(case))
 
@@ -289,6 +294,8 @@ def shrink_case(sub, case, bucket, max_evals=400, max_s=60.0):
         nonlocal evals
         evals += 1
         try:
+            if not sub.valid(c):
+                return None
             rec = eval_case(sub, c)
         except Exception:
             return None
